@@ -740,6 +740,15 @@ func (w *vc13World) plan(n int, rd *vc13Round) (resps map[string]*vc13Resp, info
 				pad = vc13MaxSize + 100
 			}
 
+			if sh := vc13ShapeByName(strings.TrimPrefix(sc.Flavor, "shape:")); sh != nil {
+				fresh = &vc13IdxInfo{class: "garbage", urls: map[string][]string{}, shape: sh.name}
+				if sh.nullish {
+					fresh.class = "nullish"
+				}
+
+				return vc13ShapeDoc(sh, base, n)
+			}
+
 			body, fresh = vc13IndexBody(base, n, rd.Entries, sc.Flavor == "notjson", pad)
 
 			return body
@@ -932,7 +941,8 @@ func (w *vc13World) checkRound(
 		)
 	}
 
-	idxApplied := info.idxClass == "valid" || info.idxClass == "partial" || info.idxClass == "ambiguous"
+	idxApplied := info.idxClass == "valid" || info.idxClass == "partial" || info.idxClass == "ambiguous" ||
+		info.idxClass == "nullish"
 	cls("idx:" + info.idxClass)
 	cls("svc:" + info.svcClass)
 	if rd.Tight {
@@ -995,9 +1005,57 @@ func (w *vc13World) checkRound(
 		}
 	}
 
+	if info.idx != nil && info.idx.shape != "" && hits[vc13IdxPath] > 0 && ri > 0 {
+		sh := vc13ShapeByName(info.idx.shape)
+		if sh.family == "top" {
+			cls("index-valid-json-wrong-top-level-shape")
+		} else {
+			cls("index-filters-value-not-an-array")
+		}
+
+		cls("index-shape:" + sh.name)
+		if sh.nullish {
+			// Recorded, not judged: do the rule lists that were there go?
+			had, left := 0, 0
+			for _, name := range vc13RuleNames {
+				if before.Served[name] != 0 {
+					had++
+					if after.Served[name] != 0 {
+						left++
+					}
+				}
+			}
+
+			switch {
+			case had == 0:
+				// Nothing to tell.
+			case left == 0:
+				cls("index-nullish:" + sh.name + ":all-rule-lists-dropped")
+			default:
+				cls("index-nullish:" + sh.name + ":rule-lists-kept")
+			}
+		}
+	}
+
+	if info.idx != nil && info.idxClass == "ambiguous" && hits[vc13IdxPath] > 0 && ri > 0 {
+		nValid := 0
+		for _, e := range info.idx.entries {
+			if e.T == "valid" {
+				nValid++
+			}
+		}
+
+		for _, e := range info.idx.entries {
+			if slices.Contains(vc13MistypedEntryTypes, e.T) && nValid > 0 {
+				cls("index-entry-of-wrong-type-next-to-valid-entries")
+				cls("index-mistyped:" + e.T)
+			}
+		}
+	}
+
 	if info.idxClass == "ambiguous" && hits[vc13IdxPath] > 0 {
 		// An entry of the wrong JSON type: recorded, not judged.
-		if len(hits) == 1+len(vc13HashOrder) {
+		if hits["/rl/a"]+hits["/rl/b"]+hits["/rl/c"] == 0 {
 			cls("idx-typeerr:whole-index-discarded")
 		} else {
 			cls("idx-typeerr:valid-entries-applied")
@@ -1116,7 +1174,7 @@ func (w *vc13World) checkRound(
 	// safe search, YouTube safe search; a failure of one of the last three
 	// makes the storage keep the previous rule lists, which the statement
 	// allows ("previous or new").
-	chain := idxApplied && info.idxClass != "ambiguous"
+	chain := idxApplied && info.idxClass != "ambiguous" && info.idxClass != "nullish"
 
 	for _, s := range vc13Slots {
 		ui := info.urls[s.path]
@@ -1823,7 +1881,7 @@ func vc13GenEntries(t *rapid.T, partial, typeErr bool) (es []vc13Entry) {
 	}
 
 	if typeErr {
-		insert(vc13Entry{T: "typeerr"})
+		insert(vc13Entry{T: rapid.SampledFrom(vc13MistypedEntryTypes).Draw(t, "idx-mistyped")})
 	}
 
 	return es
@@ -1914,6 +1972,8 @@ func vc13GenSeq(t *rapid.T) (seq *vc13Seq) {
 				rd.Idx = vc13Script{Kind: vc13OKNew}
 			case 3:
 				rd.Idx = vc13Script{Kind: vc13OKNew, Flavor: "notjson"}
+			case 4, 5:
+				rd.Idx = vc13Script{Kind: vc13OKNew, Flavor: "shape:" + rapid.SampledFrom(vc13Shapes).Draw(t, lbl+"-idx-shape").name}
 			default:
 				rd.Idx = vc13GenFault(t, lbl+"-idx", &hangs)
 			}
@@ -1999,6 +2059,8 @@ var vc13RequiredClasses = []string{
 	"idx-from-file:valid", "idx-from-file:fault", "idx-from-file:partial",
 	"file-source-larger-than-limit", "restart-lowered:checked", "from-file:svc", "from-file:adult",
 	"non-200-success-class-with-valid-body", "non-200-redirect-class-without-location", "non-200-error-class",
+	"index-valid-json-wrong-top-level-shape", "index-filters-value-not-an-array",
+	"index-entry-of-wrong-type-next-to-valid-entries",
 	"parallel", "cancel:seen-by-the-code", "index-empty", "svc-emptyrules-applied", "probe:verdict-while-body-in-flight",
 	"size-limit:applied",
 	"fault:oversize", "fault:oversize_chunked", "fault:oversize_close", "fault:short_cl", "fault:chunk_trunc",
@@ -2141,7 +2203,18 @@ func vc13GridSeqs() (seqs []*vc13Seq) {
 		}
 	}
 
-	bad := append([]string{"dupsame", "dupalt", "typeerr"}, vc13InvalidEntryTypes...)
+	// Valid JSON of the wrong shape, after a good round and before another.
+	for _, sh := range vc13Shapes {
+		mid := okRound()
+		mid.Idx.Flavor = "shape:" + sh.name
+		seqs = append(seqs, three(mid))
+
+		// The same twice in a row, then a lasting recovery.
+		seqs = append(seqs, &vc13Seq{CacheOn: true, Rounds: []vc13Round{okRound(), mid, mid, okRound(), okRound()}})
+	}
+
+	bad := append([]string{"dupsame", "dupalt"}, vc13MistypedEntryTypes...)
+	bad = append(bad, vc13InvalidEntryTypes...)
 	for _, typ := range bad {
 		for pos := 0; pos <= len(allEntries); pos++ {
 			mid := okRound()
@@ -2431,6 +2504,16 @@ func TestVerifC13FaultGrid(t *testing.T) {
 		}
 	}
 
+	for _, sh := range vc13Shapes {
+		req = append(req, "index-shape:"+sh.name)
+	}
+
+	for _, typ := range vc13MistypedEntryTypes {
+		req = append(req, "index-mistyped:"+typ)
+	}
+
+	req = append(req, "index-valid-json-wrong-top-level-shape", "index-filters-value-not-an-array",
+		"index-entry-of-wrong-type-next-to-valid-entries")
 	req = append(req, "non-200-success-class-with-valid-body", "non-200-redirect-class-without-location")
 	req = append(req, "file-source-larger-than-limit", "restart-lowered:checked")
 	for _, tg := range vc13FileTargets {
